@@ -105,6 +105,82 @@ CHECKS.update(
     }
 )
 
+WORLDS = "bounded small-world runs of the real simulator (EDF/FIFO/LSF, <= 3 graphs x <= 4 tasks, sampled balanced over the dimension product) against an independent observer"
+CHECKS.update(
+    {
+        "C01": dict(
+            category="proof",
+            technique=PYVC + "; ledger invariant preserved by every Worker mutator; " + WORLDS + " as cross-check",
+            text=(
+                "The worker ledger invariant WF_W (every holder of resources is a resident task, a registered batch placeholder or a profile; availability never negative; "
+                "a served request lowers availability by exactly the demand) is proved preserved by Worker.place_task / remove_task / load_profile / evict_profile for all "
+                "states, so by induction over the operations no history of them oversubscribes a worker. Which simulator code paths mutate live workers is pinned by a scan "
+                "(when registered); the end-to-end clause (sum of resident demands <= capacity at every place/remove, one worker per task) is additionally observed on "
+                "bounded runs. Not machine-checked: finite additivity of the sum over holders; WorkerPool-level first-fit choice (bounded only)."
+            ),
+            note=BASE_NOTE + " Specific: Pre_disjoint on request keys; WorkerPool.place_task and the scheduler-side copies are covered by the bounded stand-ins only.",
+            design_ref="DESIGN.md section 6 (C01)",
+        ),
+        "C02": dict(
+            category="proof",
+            technique=PYVC + " on the Task guards; transition-relation lemmas; " + WORLDS + " for the run-level clauses",
+            text=(
+                "Proved for all inputs: Task.start raises unless the task is SCHEDULED and asserts start_time >= release_time (obligation start.after_release), moves to RUNNING "
+                "exactly once per SCHEDULED/PREEMPTED episode (lemmas over the transition relation: RUNNING is entered only from SCHEDULED or PREEMPTED, COMPLETED only from "
+                "RUNNING/PREEMPTED and is final); the event-priority lemma orders finish < release < placement at one timestamp. Bounded: in enumerated small worlds no task starts "
+                "before its release or before its predecessors complete, and starts/completes at most once. The placement handler's guard is not yet under contract (bounded only)."
+            ),
+            note=BASE_NOTE + " Specific: the composition argument (release event before placement event at the same instant) relies on the C16 ordering lemmas; handler-level obligation pending.",
+            design_ref="DESIGN.md section 6 (C02)",
+        ),
+        "C03": dict(
+            category="proof",
+            technique=PYVC + " on Task.start/step/finish, EventTime.fuzz and Simulator.__step; " + WORLDS + " for the run-level clauses",
+            text=(
+                "Proved for all inputs: Task.step reports completion iff 0 < remaining <= step (under last_step_time == now), leaves remaining exactly reduced otherwise, "
+                "and stamps the finish at now + remaining; Task.start keeps the strategy runtime exactly without variance and within [r, r(1+v/100)+1/2] with it; "
+                "Simulator.__step refuses negative steps (clock never backwards), advances the clock by exactly the step and stamps every TASK_FINISHED event with the new clock value, "
+                "keeping the event heap valid. Bounded: finish - start == runtime, resources held over exactly [s, s+r], events handled at their own time and in order, start >= chosen time."
+            ),
+            note=BASE_NOTE + " Specific: WorkerPool.step is an assumed contract; floats as reals in fuzz; the exact upper bound of fuzz is a known finding (rounding).",
+            design_ref="DESIGN.md section 6 (C03)",
+        ),
+        "C05": dict(
+            category="proof",
+            technique=PYVC + " (safety half only: clock progress obligations); " + WORLDS + " with CPU-time alarms for termination; liveness is NOT decided",
+            text=(
+                "Deductive verification is silent on liveness. Proved: __step never moves the clock backwards and Task.step's zero-remaining behaviour is pinned by contract (the root of the "
+                "known zero-runtime livelock). Bounded: every enumerated small world must reach a single SIMULATOR_END no later than the timeout, complete all tasks under a "
+                "work-conserving policy, and never end with released runnable work. The general claims 'every run terminates' and 'feasible work always finishes' are whole-history "
+                "liveness and are not decided by any contract here."
+            ),
+            note="Bounded for the run-level clauses; the proof part covers only the clock/step functions. Three genuine defects are recorded as known findings.",
+            design_ref="DESIGN.md section 6 (C05)",
+        ),
+        "C08": dict(
+            category="exploration",
+            technique=WORLDS + ": CSV trace and counters compared with the observed run, trace fed to the project's CSVReader",
+            text="Bounded stand-in only (the handlers' row/counter obligations are not yet under contract): per world, the SIMULATOR_END counters, every row's fields, scheduler rows and reader reconstruction are compared with what the observer saw.",
+            note="Bounded; sampled worlds (not exhaustive); observer wraps Task/Worker methods in the checking process.",
+            design_ref="DESIGN.md section 6 (C08)",
+        ),
+        "C09": dict(
+            category="other",
+            technique="two-run comparison of bounded worlds through main.py in fresh processes with different PYTHONHASHSEED (stand-in for the relational contracts), plus a source scan for nondeterminism sources when registered",
+            text="Not a proof of whole-trace determinism: the same small world is run twice through main.py with the same --random_seed and different hash seeds; traces must be identical after masking wall-clock durations.",
+            note="Bounded; 2-3 hash seeds; solver back-ends' internal determinism is out of scope.",
+            design_ref="DESIGN.md section 6 (C09)",
+        ),
+        "C17": dict(
+            category="exploration",
+            technique="exhaustive small-scope enumeration (all labelled DAGs <= 5 nodes quick / <= 6 thorough, weights, cyclic digraphs, random DAGs <= 40) against brute-force spec functions",
+            text="Bounded stand-in: toposort, longest path, critical-path runtime, are_dependent, node depth, sources/sinks, breadth_first() and depth_first(n) are compared with definitions by naive closure / path enumeration on every labelled DAG up to the bound (the property's own quantifier is this enumeration).",
+            note="Exhaustive up to the stated bound; generator-based traversals and the recursive DFS toposort are outside the pyvc subset.",
+            design_ref="DESIGN.md section 6 (C17)",
+        ),
+    }
+)
+
 NOT_APPLICABLE = {
     "C20": "C++20 back-end (templates, shared_ptr DAGs, TBB): no deductive verifier for C++ is installed, the code cannot be annotated in place nor mechanically extracted into something z3/cvc5 VCs model soundly, and the library cannot be built here (TBB absent); a dump-and-check driver would be a different technique family.",
 }
@@ -154,6 +230,8 @@ def main():
         "notes": "Exit codes of ./check: 0 held, 1 violation (VIOLATION line), 2 undecided (UNDECIDED lines; never a violation), 3 checker crash.",
     }
     json.dump(m, open(os.path.join(VERIF, "MANIFEST.json"), "w"), indent=1)
+    # the checks read their claimed level from this table (kept next to the driver)
+    json.dump({pid: c["category"] for pid, c in CHECKS.items()}, open(os.path.join(VERIF, "vlib", "levels.json"), "w"), indent=1, sort_keys=True)
 
 
 if __name__ == "__main__":
